@@ -17,30 +17,31 @@ import (
 
 // Result is everything a run produced.
 type Result struct {
-	Plan      *Plan
-	Hist      []Ev
-	AttEvs    []AttEv
-	Crashes   []simrt.Crash
-	Outcome   simrt.Outcome
-	Steps     int
-	SimNs     int64
-	LogHash   uint64
-	Picks     []string
-	Perms     map[string][][]int
-	Blocked   []string // goroutines blocked in an operation at the end
-	Parked    []string
-	Faults    map[string]int
-	Rare      map[string]int
-	Retained  []*retained
-	FS        []simfs.Entry
-	FSEffects []simfs.Effect
-	Out       [][][]byte // per connection: what the server wrote
-	Ch        *recChooser
-	Log       []string
+	Plan           *Plan
+	Hist           []Ev
+	AttEvs         []AttEv
+	Crashes        []simrt.Crash
+	Outcome        simrt.Outcome
+	Steps          int
+	SimNs          int64
+	LogHash        uint64
+	Picks          []string
+	Perms          map[string][][]int
+	Blocked        []string // goroutines blocked in an operation at the end
+	Parked         []string
+	Faults         map[string]int
+	Rare           map[string]int
+	Retained       []*retained
+	FS             []simfs.Entry
+	FSEffects      []simfs.Effect
+	Out            [][][]byte // per connection: what the server wrote
+	Ch             *recChooser
+	Log            []string
 	stabilityFinal []Violation
 	parseViol      []Violation
 }
 
+//go:norace
 func init() {
 	slog.SetDefault(slog.New(slog.NewTextHandler(io.Discard, nil)))
 }
@@ -48,6 +49,8 @@ func init() {
 var devNull *os.File
 
 // Exec runs one plan inside a fresh synctest bubble.
+//
+//go:norace
 func Exec(t *testing.T, p *Plan, replay bool) (res *Result) {
 	res = &Result{Plan: p}
 	if devNull == nil {
@@ -116,9 +119,13 @@ func Exec(t *testing.T, p *Plan, replay bool) (res *Result) {
 		res.Crashes = simrt.Crashes
 		res.LogHash = simrt.LogHash()
 		res.Picks = ch.Picks
-		res.Perms = ch.Perms
+		res.Perms = ch.PermsMap()
 		res.Blocked, res.Parked = simrt.Pending()
+		for _, k := range w.faultLog {
+			w.faults[k]++
+		}
 		res.Faults = w.faults
+		w.rare["c03.parse_calls"] = w.parseCalls
 		res.Rare = w.rare
 		res.Retained = w.retain
 		res.FS = simfs.Snapshot()
